@@ -18,8 +18,8 @@ use serde_json::json;
 
 pub struct C29;
 
-const BLOCK_COMMENTS: [&str; 9] = ["/**/", "/* c */", "/* a*b */", "/* a/b */", "/* // */", "/* \" */", "/***/", "/** c **/", "/* c ***/"];
-const LINE_COMMENTS: [&str; 3] = ["// c", "// */", "// \""];
+const BLOCK_COMMENTS: [&str; 12] = ["/**/", "/* c */", "/* a*b */", "/* a/b */", "/* // */", "/* \" */", "/***/", "/** c **/", "/* c ***/", "/* \\ */", "/* c \\*/", "/* ' */"];
+const LINE_COMMENTS: [&str; 8] = ["// c", "// */", "// \"", "// c\\", "// a\\b\\", "// \\\\", "// /*", "// '"];
 
 #[derive(Clone, Debug)]
 enum Change {
